@@ -12,14 +12,15 @@ MANIFEST = dict(
 RULE = (
     "W9: all binary tree shapes up to N nodes (quick 9, thorough 11), full binary trees up to 15 nodes, random full trees to 49 "
     "nodes, random shapes to 60 nodes, parsed expression trees; unit multipliers {1, 2, 0.5, 10} x {1, 3, 0.25, 7}; every tree laid "
-    "out twice and mirrored.  distinct non-trivial = (shape, multipliers) with >= 3 nodes whose invariants were all evaluated."
+    "out twice and mirrored; node ids fresh / all equal / three ids round-robin / a clone() of such a tree (ids are not unique "
+    "within a tree), live parsed expressions and the clone-built results of DM / DF / BM laid out directly.  distinct non-trivial = (shape, multipliers) with >= 3 nodes whose invariants were all evaluated."
 )
 ASSUMPTIONS = ["separation/ordering compared with 1e-9 absolute tolerance", "mirror image of coordinates is x -> -x (the root is placed at x = 0)"]
 EXHAUSTIVE = True
 SHARDS = {"quick": 8, "thorough": 16}
 DEADLINE = {"quick": 50, "thorough": 420}
 REQUIRED = {"layout:calls": 2000, "layout:class:plain": 100, "layout:class:one-child": 500, "layout:repeat-compared": 500,
-            "layout:mirror-compared": 500, "inv:y": 1000, "inv:bounds": 1000, "inv:centre": 500, "inv:sep": 500}
+            "layout:mirror-compared": 500, "inv:y": 1000, "inv:bounds": 1000, "layout:ids:same": 100, "layout:ids:pool3": 100, "layout:ids:clone": 100, "inv:centre": 500, "inv:sep": 500}
 EPS = 1e-9
 
 
@@ -105,7 +106,7 @@ def attach_layout(prop="C18"):
         rec.arm("layout:calls")
         shp = W9.shape_str(W9.shape_of(root))
         if exc is not None:
-            rec.violation(prop, f"layout/raises/{type(exc).__name__}", "layout raised", {"shape": shp, "ux": ux, "uy": uy, "summary": f"layout of {shp} raised {type(exc).__name__}: {exc}"})
+            rec.violation(prop, f"layout/raises/{type(exc).__name__}", "layout raised", {"shape": shp, "ux": ux, "uy": uy, "ids": IDS["now"], "summary": f"layout of {shp} raised {type(exc).__name__}: {exc}"})
             return
         cls = shape_class(root)
         rec.arm("layout:class:" + cls)
@@ -116,7 +117,7 @@ def attach_layout(prop="C18"):
                 rec.arm("inv:" + inv)
         for inv, msg in fails:
             rec.violation(prop, f"layout/{inv}/{cls}", f"tidy-tree invariant '{inv}' does not hold",
-                          {"shape": shp, "ux": ux, "uy": uy, "class": cls, "summary": f"layout of shape {shp[:80]} (units {ux},{uy}; {cls}): {msg}"})
+                          {"shape": shp, "ux": ux, "uy": uy, "class": cls, "ids": IDS["now"], "summary": f"layout of shape {shp[:80]} (units {ux},{uy}; {cls}; ids {IDS['now']}): {msg}"})
         if not fails and W9.count(W9.shape_of(root)) >= 3:
             rec.nontrivial(("layout", shp, ux, uy))
 
@@ -127,17 +128,32 @@ def coords(root):
     return [(n.x, n.y) for n in S.nodes_preorder(root)]
 
 
-def node_factory():
+ID_SCHEMES = ("fresh", "same", "pool3", "clone")
+
+
+def node_factory(ids="fresh"):
+    """ids: 'fresh' = the counter ids of new nodes; 'same' = every node carries one id; 'pool3' =
+    three ids shared round-robin; 'clone' = the tree is a clone() of a fresh one whose two
+    subtrees were given equal ids (ids are not unique within a tree: clone() copies them and the
+    rules build results out of clones)."""
     from mathy_core.tree import BinaryTreeNode
 
+    if ids == "same":
+        return lambda l, r, i: BinaryTreeNode(l, r, None, "n")
+    if ids in ("pool3", "clone"):
+        return lambda l, r, i: BinaryTreeNode(l, r, None, f"n{i % 3}")
     return lambda l, r, i: BinaryTreeNode(l, r)
 
 
 _SHARED = {}
+IDS = {"now": "fresh"}
 
 
-def drive_shape(rec, s, units, fac=None):
+def drive_shape(rec, s, units, fac=None, ids="fresh"):
     from mathy_core.layout import TreeLayout as _TL
+
+    IDS["now"] = ids
+    rec.arm("layout:ids:" + ids)
 
     # one long-lived TreeLayout object lays out trees of all sizes and units in turn (state left
     # on the layout object by an earlier, larger layout must not leak into the next result);
@@ -150,10 +166,12 @@ def drive_shape(rec, s, units, fac=None):
         _SHARED["n"] += 1
         return _TL() if _SHARED["n"] % 3 == 0 else _SHARED["obj"]
 
-    fac = fac or node_factory()
+    fac = fac or node_factory(ids)
     shp = W9.shape_str(s)
     for ux, uy in units:
         t = W9.build(s, fac)
+        if ids == "clone":
+            t = t.clone()
         try:
             TreeLayout().layout(t, ux, uy)
         except Exception:
@@ -170,7 +188,7 @@ def drive_shape(rec, s, units, fac=None):
         second = coords(t)
         if any(abs(a[0] - b[0]) > EPS or abs(a[1] - b[1]) > EPS for a, b in zip(first, second)):
             rec.violation("C18", f"layout/repeat/{cls1}", "laying out the same tree again gives different coordinates",
-                          {"shape": shp, "ux": ux, "uy": uy, "class": cls1, "summary": f"layout of shape {shp[:80]} twice (units {ux},{uy}; {cls1}): {first[:6]} then {second[:6]}"})
+                          {"shape": shp, "ux": ux, "uy": uy, "class": cls1, "ids": ids, "summary": f"layout of shape {shp[:80]} twice (units {ux},{uy}; {cls1}): {first[:6]} then {second[:6]}"})
         # the mirror image
         tm = W9.build(W9.mirror(s), fac)
         t2 = W9.build(s, fac)
@@ -194,7 +212,7 @@ def drive_shape(rec, s, units, fac=None):
         for a, b in mirrored_pairs(t2, tm):
             if abs(a.x + b.x) > EPS * max(1, abs(a.x)) or abs(a.y - b.y) > EPS:
                 rec.violation("C18", f"layout/mirror/{cls}", "the mirrored tree does not get mirrored coordinates",
-                              {"shape": shp, "ux": ux, "uy": uy, "class": cls,
+                              {"shape": shp, "ux": ux, "uy": uy, "class": cls, "ids": ids,
                                "summary": f"shape {shp[:80]} vs its mirror (units {ux},{uy}; {cls}): a node at x={a.x} corresponds to x={b.x}"})
                 break
 
@@ -218,7 +236,7 @@ def run(rec, cfg):
             rec.truncated = True
             break
         units = UNITS if W9.count(s) <= 6 else [UNITS[idx % 4], (1, 1)]
-        drive_shape(rec, s, units)
+        drive_shape(rec, s, units, ids=ID_SCHEMES[(idx // cfg.nshards) % 4] if idx % 2 else "fresh")
         rec.arm("shapes:exhaustive")
         if idx % 211 == 0:
             rec.sample({"shape": W9.shape_str(s), "nodes": W9.count(s), "units": units})
@@ -232,17 +250,17 @@ def run(rec, cfg):
                 return (None, None) if x is None else (fill(x[0]), fill(x[1]))
             k += 1
             if cfg.mine(k):
-                drive_shape(rec, fill(s), [(1, 1), UNITS[k % 4]])
+                drive_shape(rec, fill(s), [(1, 1), UNITS[k % 4]], ids=ID_SCHEMES[(k // cfg.nshards) % 4])
                 rec.arm("shapes:full-exhaustive")
     for i in range(cfg.scale(20, 400)):
         if cfg.out_of_time():
             rec.truncated = True
             break
         s = W9.random_full_shape(rng, rng.randint(4, 24))
-        drive_shape(rec, s, [(1, 1), rng.choice(UNITS)])
+        drive_shape(rec, s, [(1, 1), rng.choice(UNITS)], ids=rng.choice(ID_SCHEMES))
         rec.arm("shapes:random-full")
         s = W9.random_shape(rng, rng.randint(9, 60), rng.choice([0.1, 0.3]))
-        drive_shape(rec, s, [(1, 1)])
+        drive_shape(rec, s, [(1, 1)], ids=rng.choice(ID_SCHEMES))
         rec.arm("shapes:random")
     # deep chains / zig-zags and the shapes of long parsed sums
     if cfg.shard == 2 % cfg.nshards:
@@ -261,6 +279,10 @@ def run(rec, cfg):
 
     from ..workloads import text as WT
 
+    from mathy_core.layout import TreeLayout
+    from mathy_core.rules import DistributiveMultiplyRule, DistributiveFactorOutRule, BalancedMoveRule
+
+    IDS["now"] = "live"
     for t in WT.corpus()[cfg.shard::cfg.nshards][: cfg.scale(15, 200)]:
         try:
             root = ExpressionParser().parse(t)
@@ -270,9 +292,25 @@ def run(rec, cfg):
         if W9.count(s) <= 80:
             drive_shape(rec, s, [(1, 1)])
             rec.arm("shapes:expression")
+            # the live expression tree itself, and the results of rules that build their output
+            # out of clones (several nodes of one tree then carry the same id)
+            IDS["now"] = "live"
+            try:
+                TreeLayout().layout(root, 1, 1)
+                rec.arm("shapes:live-expression")
+                for rule in (DistributiveMultiplyRule(), DistributiveFactorOutRule(), BalancedMoveRule()):
+                    for n in rule.find_nodes(root)[:3]:
+                        res = rule.apply_to(n.clone_from_root()).result.get_root()
+                        TreeLayout().layout(res, 1, 1)
+                        TreeLayout().layout(res.clone(), 2, 3)
+                        rec.arm("shapes:live-rule-result")
+            except Exception:
+                pass
 
 
 def replay(rec, cfg, w):
     attach_layout("C18")
     s = W9.parse_shape(w["shape"])
-    drive_shape(rec, s, [(w.get("ux", 1), w.get("uy", 1))])
+    ids = w.get("ids", "fresh")
+    for i in (ID_SCHEMES if ids == "live" else (ids,)):
+        drive_shape(rec, s, [(w.get("ux", 1), w.get("uy", 1))], ids=i)
